@@ -40,7 +40,8 @@ Fixpoint pieces (sep : byte) (s : bstr) (cur : bstr) : list bstr :=
 Definition nonempty (s : bstr) : bool := match s with [] => false | _ => true end.
 
 (** The acts of a clause: drop every `_`, cut at spaces, forget empty pieces.
-    (Domain: no white space other than ' ' in the text.) *)
+    (Domain: no white space other than ' ' in the text; see [blank_ws] below
+    for clauses written with newlines or tabs.) *)
 Definition acts_of (text : bstr) : list bstr :=
   filter nonempty (pieces c_sp (filter (fun c => negb (Byte.eqb c c_us)) text) []).
 
@@ -57,6 +58,27 @@ Definition white (c : byte) : bool :=
   match c with x09 | x0a | x0b | x0c | x0d | x20 => true | _ => false end.
 Definition scene_char (c : byte) : bool :=
   negb (Byte.eqb c c_plus || Byte.eqb c c_dot || Byte.eqb c c_us || white c).
+
+(** White space in a clause.  Acts are separated by blanks.  A clause may also
+    be written over several lines (the reader's backslash continuation leaves
+    the newline and the indentation inside the clause) or with tabs: a run of
+    white space that contains at least one blank separates acts exactly like a
+    blank, and white space at the ends of the clause is immaterial
+    ([blank_ws]).  A run WITHOUT any blank between two acts is not covered by
+    this reading ([ws_ok] = false: outside the domain). *)
+Definition blank_ws (text : bstr) : bstr := map (fun c => if white c then c_sp else c) text.
+
+Fixpoint ws_scan (s : bstr) (after_word has_ctl has_sp : bool) : bool :=
+  match s with
+  | [] => true
+  | c :: tl =>
+      if white c then
+        (if Byte.eqb c c_sp then ws_scan tl after_word has_ctl true
+         else ws_scan tl after_word true has_sp)
+      else if after_word && has_ctl && negb has_sp then false
+           else ws_scan tl true false false
+  end.
+Definition ws_ok (text : bstr) : bool := ws_scan text false false false.
 
 (** Well-formed act: a non-empty sequence of `.` and defined scenes, possibly
     joined by single `+` signs that have a scene or `.` on both sides. *)
